@@ -161,8 +161,6 @@ pub(crate) struct BackObs {
     /// every response byte was handed to the kernel (and FIN sent for close-delimited bodies)
     pub resp_sent_complete: bool,
     pub resp_error: Option<String>,
-    /// the (h2c) backend answered a body-less request on its HEADERS, without waiting for END_STREAM
-    pub eager: bool,
     /// after a closing response: sozu closed the backend connection too (it has read everything)
     pub peer_closed_after_resp: bool,
     /// bytes moved on the backend socket for this exchange (progress is decided on bytes)
@@ -183,7 +181,6 @@ pub(crate) struct ClientObs {
     /// the failure recorded in `resp.error` hit the whole H2 connection (GOAWAY with an error,
     /// connection closed / reset, undecodable frames), not this stream alone
     pub conn_level: bool,
-    pub only_end_missing: bool,
     pub stall_silence_s: u64,
     pub watchdog_cap: bool,
     /// sozu's socket counters over this exchange (single-lane cells only):
@@ -280,10 +277,6 @@ pub(crate) fn host_of(backend: usize) -> String {
 }
 
 pub(crate) const WATCHDOG_NO_PROGRESS: Duration = Duration::from_secs(20);
-/// when every body byte has arrived, the sender has finished (FIN handed to the kernel) and only
-/// the end-of-message signal is missing, a shorter silence is enough to call the case a stall
-/// candidate (it is still re-run alone before it counts)
-pub(crate) const WATCHDOG_END_ONLY: Duration = Duration::from_secs(2);
 /// when every sender of the unfinished direction(s) has handed all its bytes to the kernel and no
 /// byte moves on any of the four sockets, this silence makes a stall candidate
 pub(crate) const WATCHDOG_SENDER_DONE: Duration = Duration::from_secs(3);
@@ -297,6 +290,7 @@ pub(crate) fn overall_cap(x: &Xfer) -> Duration {
 // ---------------------------------------------------------------------------------------------
 // generators
 
+const MAX_H2_STREAMS: usize = 32;
 const CHUNK_SIZES: &[usize] = &[1, 2, 7, 9, 4096, 16383, 16384, 16385, 0 /* = size itself */];
 
 fn named_sizes(bs: u64) -> Vec<u64> {
@@ -385,12 +379,20 @@ fn gen_chunks(rng: &mut Rng, size: u64) -> Vec<usize> {
 
 fn gen_cell_cfg(rng: &mut Rng, with_h2c: bool) -> CellCfg {
     let tight = rng.chance(1, 2);
+    let lanes = match rng.below(10) {
+        0..=6 => 1usize,
+        7..=8 => 2,
+        _ => 3,
+    };
     let mut knobs = Vec::new();
     let (buffer_size, min_buffers, max_buffers);
     if tight {
         buffer_size = 16393;
         min_buffers = 1;
-        max_buffers = rng.range(24, 64);
+        // small, but enough for what the cell opens at once: a stream holds two buffers, an H2
+        // connection carries up to 32 streams, `lanes` connections run side by side (a smaller
+        // pool only provokes sozu's documented refusal of streams, which is not C01's subject)
+        max_buffers = 2 * (MAX_H2_STREAMS as u64 + 4) * lanes as u64 + rng.range(0, 32);
         for k in ["front_sndbuf", "front_rcvbuf", "back_sndbuf", "back_rcvbuf"] {
             if rng.chance(3, 4) {
                 knobs.push((k.to_owned(), *rng.pick(&[2048i64, 4096, 4096, 8192, 16384])));
@@ -401,11 +403,6 @@ fn gen_cell_cfg(rng: &mut Rng, with_h2c: bool) -> CellCfg {
         min_buffers = 1;
         max_buffers = 1000;
     }
-    let lanes = match rng.below(10) {
-        0..=6 => 1,
-        7..=8 => 2,
-        _ => 3,
-    };
     let slow = |rng: &mut Rng| IoProgram { rcvbuf: 4096, sndbuf: if rng.bool() { 4096 } else { 0 }, ..IoProgram::default() };
     let mut backends = vec![(Back::H1, IoProgram::default()), (Back::H1, slow(rng))];
     if with_h2c {
@@ -493,9 +490,8 @@ fn gen_xfer(rng: &mut Rng, key: u64, cfg: &CellCfg, sz: &Sizes, front: Front, ba
                 trailers: rng.chance(1, 5),
                 close: rng.chance(1, 8),
             },
-            14 => RespFraming::Close10,
-            15..=17 => RespFraming::Close11,
-            _ => RespFraming::Cl { close: false },
+            14..=16 => RespFraming::Close10,
+            _ => RespFraming::Close11,
         }
     };
     let fill = |rng: &mut Rng| match rng.below(10) {
@@ -506,9 +502,7 @@ fn gen_xfer(rng: &mut Rng, key: u64, cfg: &CellCfg, sz: &Sizes, front: Front, ba
     let mut backend_prog = gen_prog(rng);
     backend_prog.rcvbuf = 0;
     backend_prog.sndbuf = 0;
-    // a close-delimited response ends an H1 connection anyway: most of these exchanges announce
-    // it (`Connection: close` in the request), the others leave it to sozu
-    let client_close = front != Front::H2Tls && if resp_framing.close_delimited() { rng.chance(4, 5) } else { last_on_conn && rng.chance(1, 5) };
+    let client_close = front != Front::H2Tls && last_on_conn && rng.chance(1, 5);
     Xfer {
         key,
         req_msg: key << 1,
@@ -562,7 +556,7 @@ fn gen_cell(ctx: &Ctx, case: u64) -> CellPlan {
             let streams = match rng.below(10) {
                 0..=3 => 1,
                 4..=7 => rng.urange(2, 6),
-                _ => rng.urange(7, 32),
+                _ => rng.urange(7, MAX_H2_STREAMS),
             };
             // one backend protocol and one H2 "theme" (padding / empty frames / how streams end)
             // per H2 connection: a connection-level failure then has one pairing and one theme
@@ -613,7 +607,7 @@ fn gen_cell(ctx: &Ctx, case: u64) -> CellPlan {
                 if x.req_size > sz.common_max || x.resp_size > sz.common_max {
                     big_left = 0;
                 }
-                if j + 1 < k && !x.resp_framing.close_delimited() {
+                if j + 1 < k {
                     x.client_close = false;
                 }
                 xfers.push(x);
@@ -654,6 +648,8 @@ fn gen_cell(ctx: &Ctx, case: u64) -> CellPlan {
 pub(crate) struct CellEnv {
     /// re-run in isolation: only the generous watchdog (20 s without a byte moving) applies
     pub generous: bool,
+    /// an H1 connection stops starting exchanges after this long
+    pub conn_budget: Duration,
     pub probe: Arc<sozu_lib::verif::Probe>,
     pub single_lane: bool,
     pub ip: Ipv4Addr,
@@ -797,7 +793,7 @@ fn start_cell(plan: &CellPlan, rep: &mut Report) -> Option<(Worker, Vec<BackendS
         let _ = w.stop();
         return None;
     }
-    let env = CellEnv { generous: false, probe: w.probe.clone(), single_lane: true, ip, http, https, shared, cfg: plan.cfg.clone() };
+    let env = CellEnv { generous: false, conn_budget: Duration::from_secs(3600), probe: w.probe.clone(), single_lane: true, ip, http, https, shared, cfg: plan.cfg.clone() };
     Some((w, servers, env))
 }
 
@@ -826,6 +822,9 @@ fn run_cell(plan: &CellPlan, only_conn: Option<usize>, only_key: Option<u64>, re
     let lanes = if only_conn.is_some() { 1 } else { plan.cfg.lanes.max(1) };
     env.single_lane = lanes == 1;
     env.generous = only_conn.is_some() && rerun;
+    if only_conn.is_none() {
+        env.conn_budget = cell_budget.mul_f64(0.6);
+    }
     let before = w.probe.counters();
     let mut outcomes: Vec<XferOutcome> = Vec::new();
     // a cell whose connections keep running into watchdogs stops opening new ones
@@ -1077,8 +1076,7 @@ impl Judge<'_> {
             };
             let sig = format!("bodies/stalled/{pair}/{sdir}/{sframing}");
             let wit = witness(self.ctx, self.plan, o, json!({"request_body_bytes_at_backend": up, "of": x.req_size,
-                "response_body_bytes_at_client": down, "of_resp": x.resp_size, "exchange_direction": dir,
-                "only_the_end_of_message_is_missing": c.only_end_missing, "silence_before_giving_up_s": c.stall_silence_s}));
+                "response_body_bytes_at_client": down, "of_resp": x.resp_size, "exchange_direction": dir, "silence_before_giving_up_s": c.stall_silence_s}));
             if self.rerun {
                 rep.violation(&sig, &format!("transfer stopped making progress while both peers were willing (also when re-run alone): request body {up}/{} bytes at the backend, response body {down}/{} bytes at the client",
                     x.req_size, x.resp_size), wit);
@@ -1143,15 +1141,7 @@ impl Judge<'_> {
                         } else {
                             rep.obs(&format!("exempt/upload_cut_before_client_finished/{kind}"), 1);
                         }
-                    } else if c.from_backend && c.resp.ended && b.eager && c.req_sent_complete {
-                        // the backend served the body-less request from its HEADERS; the end of
-                        // the request was never signalled although the client ended it cleanly
-                        judged = true;
-                        violated = true;
-                        let sig = format!("bodies/unterminated/{pair}/upload/{}", sig_up(x));
-                        rep.violation(&sig, &format!("the client sent a complete request ({} body bytes) and got its response, but the backend never saw the end of the request (no END_STREAM) after {} body bytes", x.req_size, b.req.bytes),
-                            witness(self.ctx, self.plan, o, json!({"received": b.req.bytes, "sent": x.req_size})));
-                    } else if c.from_backend && c.resp.ended && !b.eager && x.mode == Mode::Normal {
+                    } else if c.from_backend && c.resp.ended && x.mode == Mode::Normal {
                         rep.broken(&format!("harness: backend answered key {} without having finished the request", x.key));
                     } else {
                         rep.obs("exempt/upload_unfinished_without_receiver_verdict", 1);
@@ -1440,7 +1430,7 @@ pub fn run(ctx: &Ctx) -> Report {
         finish_stalls(ctx, &globals, &mut rep);
         return rep;
     }
-    let n = ctx.opt_u64("cells", ctx.tier.pick(48, 1400));
+    let n = ctx.opt_u64("cells", ctx.tier.pick(40, 1400));
     // cells take 10..40 s (deliberate pauses, watchdogs on the defects sozu has): stop starting them
     // early enough for the run to end near the budget
     let start_until = ctx.budget.mul_f64(ctx.tier.pick(0.4, 0.9));
